@@ -99,7 +99,7 @@ func (r *Recorder) Pause() {
 // WaitPaused waits until the consumer goroutine is parked (not receiving).
 func (r *Recorder) WaitPaused(timeout time.Duration) bool {
 	deadline := time.Now().Add(timeout)
-	timer := time.AfterFunc(timeout, func() { r.cond.Broadcast() })
+	timer := time.AfterFunc(timeout, func() { r.mu.Lock(); r.mu.Unlock(); r.cond.Broadcast() }) //nolint:staticcheck // taking the lock first: the waiter is then either before its deadline check or already waiting
 	defer timer.Stop()
 	r.mu.Lock()
 	defer r.mu.Unlock()
@@ -147,7 +147,7 @@ func (r *Recorder) WaitClosed(timeout time.Duration) bool {
 // WaitFor waits until pred holds over the recorded events.
 func (r *Recorder) WaitFor(timeout time.Duration, pred func([]Rec) bool) bool {
 	deadline := time.Now().Add(timeout)
-	timer := time.AfterFunc(timeout, func() { r.cond.Broadcast() })
+	timer := time.AfterFunc(timeout, func() { r.mu.Lock(); r.mu.Unlock(); r.cond.Broadcast() }) //nolint:staticcheck // taking the lock first: the waiter is then either before its deadline check or already waiting
 	defer timer.Stop()
 	r.mu.Lock()
 	defer r.mu.Unlock()
